@@ -654,6 +654,7 @@ def run(ctx):
     if cases:
         ctx.sample(cases[0])
     detached_selectors(ctx, 1500 if quick else 20000)
+    negation_family(ctx, 150 if quick else 4000)
     if ctx.model.available:
         outs = ctx.model.run(flats)
         agree = 0
@@ -738,6 +739,94 @@ def detached_selectors(ctx, n):
         else:
             ctx.disagree('detached-selector', case, want, got)
     ctx.extra['correspondence_detached'] = {'cases': len(cases), 'agree': agree}
+
+
+def all_pairs_deep(sheet):
+    """every (URI, name) a selector stores, the argument of :not() included"""
+    out = []
+    for _, r in style_rules(sheet):
+        for sel in r.selectorList:
+            one = []
+            for it in sel.seq:
+                if isinstance(it.value, tuple):
+                    ns = ANY if not isinstance(it.value[0], str) and it.value[0] is not None else it.value[0]
+                    one.append((it.type, ns, it.value[1]))
+            out.append(one)
+    return out
+
+
+def negation_family(ctx, n):
+    """a namespace may be used only inside :not(): it is still used.  Search only (oracle = the property's own
+    words): every URI a selector stores is declared; removal of a used namespace is rejected; re-binding keeps
+    the pairs; the serialisation re-resolves to the same pairs"""
+    import cssutils
+    import xml.dom
+    from harness import impl
+    rng = ctx.rng
+    NEG = ['x:not(%sq)', ':not(%s*)', 'x:not([%st])', 'y:not(%sq) z', '*|x:not(%sy)']
+    for _ in range(n):
+        impl.reset()
+        used = rng.choice(['a', 'b'])
+        other = 'b' if used == 'a' else 'a'
+        sels = [rng.choice(NEG) % (used + '|')]
+        if rng.random() < 0.4:
+            sels.append(rng.choice(['%s|x' % other, '[%s|t]' % other, 'x']))
+        text = '@namespace a "u1"; @namespace b "u2"; ' + ' '.join('%s{left:0}' % s_ for s_ in sels)
+        ops = []
+        for _k in range(rng.randrange(1, 4)):
+            ops.append(rng.choice([('del', used), ('del', other), ('delrule', 0), ('delrule', 1), ('rebind', 'n', used), ('rebind', other, used),
+                                   ('seturi', used, 'u9')]))
+        case = {'text': text, 'ops': [list(o) for o in ops], 'cls': None, 'family': 'negation'}
+        ctx.case(('negation', text, tuple(ops)))
+        try:
+            sheet = cssutils.parseString(text)
+            pairs0 = all_pairs_deep(sheet)
+            for k, op in enumerate(ops):
+                before = all_pairs_deep(sheet)
+                uri_of = dict(sheet.namespaces.items())
+                used_uris = {ns for sel in before for _, ns, _ in sel if isinstance(ns, str) and ns and ns != ANY}
+                rejected = False
+                try:
+                    if op[0] == 'del':
+                        target = uri_of.get(op[1])
+                        del sheet.namespaces[op[1]]
+                    elif op[0] == 'delrule':
+                        rr = sheet.cssRules[op[1]] if op[1] < sheet.cssRules.length else None
+                        target = rr.namespaceURI if rr is not None and rr.type == rr.NAMESPACE_RULE else None
+                        sheet.deleteRule(op[1])
+                    elif op[0] == 'rebind':
+                        target = None
+                        if op[2] in uri_of:
+                            sheet.namespaces[op[1]] = uri_of[op[2]]
+                    else:
+                        target = None
+                        sheet.namespaces[op[1]] = op[2]
+                except xml.dom.DOMException:
+                    rejected = True
+                after = all_pairs_deep(sheet)
+                decl = set(dict(sheet.namespaces.items()).values())
+                if target is not None and target in used_uris and not rejected and op[0] in ('del', 'delrule'):
+                    ctx.violation('remove-used', dict(case, at=k), 'removing the namespace %r still used inside :not() was accepted' % target, KNOWN_PRED)
+                if op[0] != 'seturi' and not (op[0] == 'delrule' and target is None) and after != before:
+                    ctx.violation('denotation-changed', dict(case, at=k), 'pairs before %r after %r' % (before, after), KNOWN_PRED)
+                undeclared = {ns for sel in after for _, ns, _ in sel if isinstance(ns, str) and ns and ns != ANY} - decl
+                if undeclared:
+                    ctx.violation('used-undeclared', dict(case, at=k), 'selectors use %r, declared %r' % (sorted(undeclared), sorted(decl)), KNOWN_PRED)
+                again = cssutils.parseString(sheet.cssText)
+                if all_pairs_deep(again) != after:
+                    ctx.violation('reparse-pairs', dict(case, at=k), 'serialised %r: pairs %r, in the DOM %r' % (
+                        sheet.cssText.decode()[:300], all_pairs_deep(again), after), KNOWN_PRED)
+        except Exception as e:  # noqa
+            ctx.violation('negation-raises', case, '%s: %s' % (type(e).__name__, e), KNOWN_PRED)
+        # stand-alone selector with its own dictionary
+        try:
+            sel = cssutils.css.Selector((sels[0], {'a': 'u1', 'b': 'u2'}))
+            again = cssutils.css.Selector((sel.selectorText, {'a': 'u1', 'b': 'u2'}))
+            if [i.value for i in sel.seq] != [i.value for i in again.seq]:
+                ctx.violation('detached-resolution', dict(case, selector=sels[0]), 'selectorText %r re-resolves to %r, stored %r' % (
+                    sel.selectorText, [i.value for i in again.seq], [i.value for i in sel.seq]), KNOWN_PRED)
+        except xml.dom.DOMException as e:
+            ctx.violation('detached-undeclared-prefix', dict(case, selector=sels[0]), 'rejected: %s' % e, KNOWN_PRED)
 
 
 def replay(path):
